@@ -739,9 +739,9 @@ func c16(c *core.Ctx, r *core.Report) {
 				if fld == nil {
 					// promoted method through the embedded *MetricVec
 					d := an.D().Of(call.Common().Args[0])
-					return strings.HasPrefix(d, "$metrics."+f.Name())
+					return strings.HasPrefix(d, "$recv."+f.Name())
 				}
-				return an.SameField(fld, f) || strings.HasPrefix(an.D().Of(call.Common().Args[0]), "$metrics."+f.Name())
+				return an.SameField(fld, f) || strings.HasPrefix(an.D().Of(call.Common().Args[0]), "$recv."+f.Name())
 			}
 			exits := an.PathCount(reset, an.CallWeight(isResetOf, 0))
 			tot, ok := an.Total(exits, false)
